@@ -324,7 +324,23 @@ fn run_cfg(cfg: &Cfg, bin: &std::path::Path, rng: &mut Rng, cov: &mut Cov) -> Re
     if before.iter().all(|r| !matches!(r, Resp::Found { .. })) {
         return Ok(Some(format!("none of the {} stored versions is served before the restart", chain.len())));
     }
-    // ---- kill -9 and restart on the same directory (listen given in another form)
+    // ---- kill -9 and restart on the same directory (listen given in another form); in half of
+    // the configurations another process (a backup job, an operator's sqlite shell) holds the
+    // database open meanwhile, so that the write-ahead log is still on disk at the restart
+    let bystander: Option<rusqlite::Connection> = if cfg.addrs[0].len() % 2 == 0 { rusqlite::Connection::open(db_file(&data)).ok() } else { None };
+    if let Some(c) = &bystander {
+        let _: Result<i64, _> = c.query_row("SELECT count(*) FROM clients", [], |r| r.get(0));
+        // one more acknowledged request while the other connection is open
+        let data2 = b"written-while-another-process-has-the-database-open".to_vec();
+        let (r, _) = call(&pick_addr(rng), client, &Req::AddVersion { parent, data: data2.clone() });
+        if let Resp::AddOk { vid, .. } = r {
+            chain.push((vid, parent, data2));
+            reads.push(Req::GetChild { parent });
+            parent = vid;
+        }
+        cov.hit("kill9-restart:another-process-has-the-database-open".into());
+    }
+    let before: Vec<Resp> = if bystander.is_some() { reads.iter().map(|r| call(&pick_addr(rng), client, r).0).collect() } else { before };
     proc.kill9();
     drop(proc);
     let mut cfg2 = cfg.clone();
@@ -340,6 +356,7 @@ fn run_cfg(cfg: &Cfg, bin: &std::path::Path, rng: &mut Rng, cov: &mut Cov) -> Re
         }
     }
     let _ = &snap_data;
+    drop(bystander);
     if !cfg.allow.is_empty() {
         let (_, raw) = call(&pick_addr(rng), stranger, &Req::GetSnapshot);
         if raw.status != 403 {
